@@ -42,7 +42,12 @@ pub fn echo_plan(e: &EchoReq, nonce: u64, h2: bool) -> ReqPlan {
         nonce,
         head_method: false,
         expect: Expect::Echo {
-            op: e.op.to_string(),
+            // the API-trait twins of the two typed endpoints
+            op: match e.path_segs.first().map(|s| s.as_str()) {
+                Some("tt") => "echo_typed_t".to_string(),
+                Some("tform") => "echo_form_t".to_string(),
+                _ => e.op.to_string(),
+            },
             canon,
             method: e.method.to_string(),
             target: if h2 { format!("http://sim{}", e.target()) } else { e.target() },
